@@ -109,26 +109,26 @@ func (m multiSlice) Error() string   { return "[" + m[0].Error() + " | " + m[1].
 func (m multiSlice) Unwrap() []error { return m }
 
 var corpus = []layer{
-	{"empty", "", ""},
-	{"colons", "a: b:: c:", ""},
-	{"json-text", `{"k":"v","n":[1,2.5e3],"o":{"x":null}}: `, ""},
-	{"esc", "\x1b", ""},        // the marker's first byte directly in front of the inner text
-	{"json-word", "json", ""},  // the marker's tail directly in front of the inner text
-	{"esc-jso", "\x1bjso", ""}, // all of the marker but its last byte
-	{"son-esc", "son\x1b", ""}, // tail + head
-	{"unicode", "héllo wörld ✓ 日本語 \U0001F642: ", ""},
-	{"newlines", "line1\nline2\r\n\t: ", "\n"},
-	{"suffix-esc", "", "\x1b"}, // inner text directly followed by the marker's first byte
-	{"suffix-json-word", "(", ")json"},
-	{"looks-like-grpc", "rpc error: code = NotFound desc = 100%: ", ""},
+	{"empty", "", "", ""},
+	{"colons", "", "a: b:: c:", ""},
+	{"json-text", "", `{"k":"v","n":[1,2.5e3],"o":{"x":null}}: `, ""},
+	{"esc", "", "\x1b", ""},        // the marker's first byte directly in front of the inner text
+	{"json-word", "", "json", ""},  // the marker's tail directly in front of the inner text
+	{"esc-jso", "", "\x1bjso", ""}, // all of the marker but its last byte
+	{"son-esc", "", "son\x1b", ""}, // tail + head
+	{"unicode", "", "héllo wörld ✓ 日本語 \U0001F642: ", ""},
+	{"newlines", "", "line1\nline2\r\n\t: ", "\n"},
+	{"suffix-esc", "", "", "\x1b"}, // inner text directly followed by the marker's first byte
+	{"suffix-json-word", "", "(", ")json"},
+	{"looks-like-grpc", "", "rpc error: code = NotFound desc = 100%: ", ""},
 }
 
 // layer texts added in the thorough tier
 var corpusThorough = []layer{
-	{"plain", "cannot do it: ", ""},
-	{"suffix-jso", "", " \x1bjso"},
-	{"esc-j", "\x1bj", ""}, // meets "son..." to form the complete marker: such chains are excluded
-	{"long", strings.Repeat("0123456789abcdef", 64) + ": ", ""},
+	{"plain", "", "cannot do it: ", ""},
+	{"suffix-jso", "", "", " \x1bjso"},
+	{"esc-j", "", "\x1bj", ""}, // meets "son..." to form the complete marker: such chains are excluded
+	{"long", "", strings.Repeat("0123456789abcdef", 64) + ": ", ""},
 }
 
 func (l layer) wrap(inner error) error {
@@ -206,7 +206,7 @@ const (
 type kase struct {
 	Class  string  `json:"class"`
 	Root   string  `json:"root,omitempty"` // a real OS error of the class instead of the sentinel
-	Layers []layer `json:"layers"` // innermost first
+	Layers []layer `json:"layers"`         // innermost first
 	Embed  string  `json:"embed"`
 	Object string  `json:"object,omitempty"`
 	Code   *int    `json:"code,omitempty"` // set for a case of the code -> class direction instead
@@ -234,13 +234,89 @@ func objectByName(n string) *object {
 	return nil
 }
 
+// root is the innermost error of a chain: the sentinel of a class or a real OS error of that class.
+type root struct {
+	name string // "" for the sentinel
+	ci   int
+	err  error
+}
+
+func (r root) label() string {
+	if r.name == "" {
+		return classes[r.ci].name
+	}
+	return classes[r.ci].name + "<-" + r.name
+}
+
+// osRoots produces real OS errors at run time under dir (which must exist and be writable).
+func osRoots(dir string) []root {
+	ci := func(n string) int { i, _ := classByName(n); return i }
+	var out []root
+	add := func(name, class string, err error) {
+		if err != nil {
+			out = append(out, root{name, ci(class), err})
+		}
+	}
+	file := filepath.Join(dir, "file")
+	_ = os.WriteFile(file, []byte("x"), 0o600)
+	_ = os.WriteFile(filepath.Join(dir, "sub-file"), nil, 0o600)
+	sub := filepath.Join(dir, "nonempty")
+	_ = os.Mkdir(sub, 0o700)
+	_ = os.WriteFile(filepath.Join(sub, "f"), nil, 0o600)
+
+	_, e := os.Open(filepath.Join(dir, "missing"))
+	add("os.Open(missing)", "ErrNotExist", e)
+	_, e = os.Stat(filepath.Join(dir, "missing", "deeper"))
+	add("os.Stat(missing)", "ErrNotExist", e)
+	add("os.Mkdir(existing)", "ErrExist", os.Mkdir(sub, 0o700))
+	_, e = os.OpenFile(file, os.O_CREATE|os.O_EXCL|os.O_WRONLY, 0o600)
+	add("os.OpenFile(O_EXCL,existing)", "ErrExist", e)
+	add("os.Remove(non-empty dir)", "ErrExist", os.Remove(sub))
+	add("PathError{EACCES}", "ErrNotAuthorized", &fs.PathError{Op: "open", Path: "p", Err: syscall.EACCES})
+	add("syscall.EPERM", "ErrNotAuthorized", syscall.EPERM)
+	add("LinkError{EPERM}", "ErrNotAuthorized", &os.LinkError{Op: "link", Old: "a", New: "b", Err: syscall.EPERM})
+	add("PathError{EINVAL}", "ErrInvalid", &fs.PathError{Op: "seek", Path: "p", Err: syscall.EINVAL})
+	var nf *os.File
+	add("(*os.File)(nil).Close()", "ErrInvalid", nf.Close())
+	_, e = nf.Seek(-1, 0)
+	add("(*os.File)(nil).Seek(-1)", "ErrInvalid", e)
+	if f, err := os.Open(file); err == nil {
+		f.Close()
+		_, e = f.Read(make([]byte, 1))
+		add("Read(closed file)", "ErrClosed", e)
+	}
+	return out
+}
+
+// qualifies is the precondition for a real OS error: before any wrapping it is of its class and of no
+// other class (standard errors.Is).
+func (r root) qualifies() bool {
+	for ti, t := range classes {
+		if errors.Is(r.err, t.err) != (ti == r.ci) {
+			return false
+		}
+	}
+	return true
+}
+
 // buildChain constructs the error of a case from scratch (used by the replayer and for samples).
-func buildChain(k kase) (error, *finding) {
+func buildChain(k kase, roots []root) (error, *finding) {
 	ci, ok := classByName(k.Class)
 	if !ok {
 		return nil, &finding{"harness/unknown-class", k.Class}
 	}
 	err := classes[ci].err
+	if k.Root != "" {
+		err = nil
+		for _, r := range roots {
+			if r.name == k.Root && r.ci == ci {
+				err = r.err
+			}
+		}
+		if err == nil {
+			return nil, &finding{"harness/unknown-root", k.Root}
+		}
+	}
 	var f *finding
 	if k.Embed == embInner {
 		o := objectByName(k.Object)
@@ -271,7 +347,9 @@ func buildChain(k kase) (error, *finding) {
 //
 // seen (may be nil) holds the signatures this worker has reported already: a repeated signature is
 // neither formatted nor returned again, so that a broken tree does not spend its time on messages.
-func checkChain(ci int, err error, emb string, obj *object, seen map[string]int) (out []finding) {
+//
+// asked is the number of classes the wrapped chain was asked for.
+func checkChain(ci int, err error, emb string, obj *object, seen map[string]int) (out []finding, asked int) {
 	c := classes[ci]
 	add := func(sig, format string, args ...any) {
 		if seen != nil {
@@ -284,7 +362,12 @@ func checkChain(ci int, err error, emb string, obj *object, seen map[string]int)
 	}
 	var g, g2 error
 	if f := guarded("GRPCWrap", func() { g = gerrors.GRPCWrap(err) }); f != nil {
-		return append(out, *f)
+		if !reflect.TypeOf(err).Comparable() {
+			// an error whose dynamic type cannot be a map key (slice or map type) as the outermost layer
+			add("errors/panic/GRPCWrap/uncomparable-error-type", "GRPCWrap(e) panics for e of type %T (%q) wrapping %s: %s", err, err.Error(), c.name, f.what)
+			return
+		}
+		return append(out, *f), 0
 	}
 	if g == nil {
 		add("errors/grpcwrap-nil/"+c.name, "GRPCWrap(%q) is nil", err.Error())
@@ -297,6 +380,7 @@ func checkChain(ci int, err error, emb string, obj *object, seen map[string]int)
 			out = append(out, *f)
 			continue
 		}
+		asked++
 		switch {
 		case ti == ci && !got:
 			add("errors/is-class/"+c.name, "Is(GRPCWrap(e), %s) is false for e=%q wrapping %s (wrapped code %v)", c.name, err.Error(), c.name, status.Code(g))
@@ -419,37 +503,90 @@ const maxDepth = 4
 
 type counters struct {
 	chains, tuples, pruned, embInner, embOuter, embNone int64
+	shapeChains, osChains, pctChains                    int64
 	byDepth                                             [maxDepth + 1]int64
 	seen                                                map[string]int
 }
 
-// subtreeSize is the number of chains at depth d and below it (d itself included).
-func subtreeSize(d int) int64 {
-	n, p := int64(0), int64(1)
-	for ; d <= maxDepth; d++ {
-		n += p
-		p *= int64(len(corpus))
+func (c *counters) add(o *counters) {
+	c.chains += o.chains
+	c.tuples += o.tuples
+	c.pruned += o.pruned
+	c.embInner += o.embInner
+	c.embOuter += o.embOuter
+	c.embNone += o.embNone
+	c.shapeChains += o.shapeChains
+	c.osChains += o.osChains
+	c.pctChains += o.pctChains
+	for i := range c.byDepth {
+		c.byDepth[i] += o.byDepth[i]
+	}
+}
+
+// walk describes one family of chains: a root, an optional inner embedding, the objects for the outer
+// embedding, and the depth bounds. Layers of any kind (texts and shapes) are used up to mixedDepth;
+// beyond it and up to maxDepth a chain is extended only by text layers and only if it consists of
+// text layers so far.
+type walk struct {
+	rt         root
+	base       *object   // inner embedding or nil
+	outer      []*object // outer embeddings (only used when base is nil); shallow objects up to shallowDepth
+	maxDepth   int
+	mixedDepth int
+}
+
+func (w *walk) allowed(d int, allText bool, next layer) bool {
+	if d+1 > w.maxDepth {
+		return false
+	}
+	return d+1 <= w.mixedDepth || (allText && next.Shape == "")
+}
+
+func (w *walk) outerAt(d int) (out []*object) {
+	if w.base != nil || d == 0 { // at depth 0 the outer embedding is the inner one
+		return nil
+	}
+	for _, o := range w.outer {
+		if o.deep || d <= shallowDepth {
+			out = append(out, o)
+		}
+	}
+	return
+}
+
+// size is the number of chains of the walk at a node of depth d and below it.
+func (w *walk) size(d int, allText bool) int64 {
+	n := int64(1 + len(w.outerAt(d)))
+	for _, l := range alphabet {
+		if w.allowed(d, allText, l) {
+			n += w.size(d+1, allText && l.Shape == "")
+		}
 	}
 	return n
 }
 
-// explore walks every extension of the chain (err over plain text plainMsg, layers so far) depth first.
-// base is nil for a chain without an inner embedding.
-func explore(run *report.Run, ci int, base *object, err error, plainMsg string, layers []layer, cnt *counters) {
+var alphabet []layer // corpus texts followed by the shapes
+
+// explore evaluates the chain err (text without embedding: plainMsg) and every allowed extension.
+func (w *walk) explore(run *report.Run, err error, plainMsg string, layers []layer, allText bool, cnt *counters) {
 	d := len(layers)
 	// generator restriction: layer texts may contain parts of the marker but the text of the chain
 	// (without the embedding) must not contain the complete marker, also not by two texts meeting
 	if strings.Contains(plainMsg, marker) {
-		n := subtreeSize(d)
-		if base == nil {
-			n += (n) * int64(len(objects)) // the outer embeddings of these chains
-		}
-		cnt.pruned += n
+		cnt.pruned += w.size(d, allText)
 		return
 	}
+	witness := func(emb string, obj *object) kase {
+		k := kase{Class: classes[w.rt.ci].name, Root: w.rt.name, Layers: append([]layer(nil), layers...), Embed: emb}
+		if obj != nil {
+			k.Object = obj.name
+		}
+		return k
+	}
 	eval := func(e error, emb string, obj *object) {
+		fs, asked := checkChain(w.rt.ci, e, emb, obj, cnt.seen)
 		cnt.chains++
-		cnt.tuples += int64(len(classes))
+		cnt.tuples += int64(asked)
 		cnt.byDepth[d]++
 		switch emb {
 		case embNone:
@@ -459,80 +596,168 @@ func explore(run *report.Run, ci int, base *object, err error, plainMsg string, 
 		default:
 			cnt.embOuter++
 		}
-		fs := checkChain(ci, e, emb, obj, cnt.seen)
-		if len(fs) > 0 {
-			k := kase{Class: classes[ci].name, Layers: append([]layer(nil), layers...), Embed: emb}
-			if obj != nil {
-				k.Object = obj.name
-			}
-			for _, f := range fs {
-				run.Violation(f.sig, f.what, k)
-			}
+		if !allText {
+			cnt.shapeChains++
+		}
+		if w.rt.name != "" {
+			cnt.osChains++
+		}
+		if obj != nil && !obj.deep {
+			cnt.pctChains++
+		}
+		for _, f := range fs {
+			run.Violation(f.sig, f.what, witness(emb, obj))
 		}
 	}
-	if base != nil {
-		eval(err, embInner, base)
+	if w.base != nil {
+		eval(err, embInner, w.base)
 	} else {
 		eval(err, embNone, nil)
-		if d > 0 { // at depth 0 the outer embedding is the inner one
-			for i := range objects {
-				o := &objects[i]
-				var oe error
-				if f := guarded("EmbedObject", func() { oe = gerrors.EmbedObject(o.val, err) }); f != nil {
-					run.Violation(f.sig, f.what, kase{Class: classes[ci].name, Layers: append([]layer(nil), layers...), Embed: embOuter, Object: o.name})
-					continue
-				}
-				eval(oe, embOuter, o)
+		for _, o := range w.outerAt(d) {
+			var oe error
+			if f := guarded("EmbedObject", func() { oe = gerrors.EmbedObject(o.val, err) }); f != nil {
+				run.Violation(f.sig, f.what, witness(embOuter, o))
+				continue
 			}
+			eval(oe, embOuter, o)
 		}
 	}
-	if d == maxDepth {
-		return
-	}
-	for _, l := range corpus {
-		explore(run, ci, base, l.wrap(err), l.Pre+plainMsg+l.Suf, append(layers, l), cnt)
+	for _, l := range alphabet {
+		if w.allowed(d, allText, l) {
+			w.explore(run, l.wrap(err), l.Pre+plainMsg+l.Suf, append(layers, l), allText && l.Shape == "", cnt)
+		}
 	}
 }
 
 func TestCheck(t *testing.T) {
 	run := report.New("C19", "exploration")
 	defer run.Finish(t)
-	run.Rule("distinct (class, asked class, wrap depth, embedding {none, inner x object, outer x object}, layer texts) tuples for which Is(GRPCWrap(chain), asked class) was evaluated, plus distinct (gRPC code, message) pairs of the code -> class direction; the enumeration visits each tuple once")
+	run.Rule("distinct (innermost error {class sentinel, real OS error of the class}, asked class, wrapping chain, embedding {none, inner x object, outer x object}) tuples for which Is(GRPCWrap(chain), asked class) was evaluated, plus distinct (gRPC code, message) pairs of the code -> class direction; the enumeration visits each tuple once. " +
+		"Chains: every sequence of depth <= 3 over the alphabet {single-%w x corpus texts, two-%w with the class last, two-%w with the class first, errors.Join with the class last / first, pointer type with Unwrap() []error, slice type with Unwrap() []error}, plus every depth-4 sequence of single-%w texts. " +
+		"Objects: 3 crossed with every chain; 7 whose JSON contains '%' crossed with the chains of depth <= 2. " +
+		"Real OS errors (produced at run time): chains of depth <= 3 without object, depth <= 2 with the objects hostile-struct and pct-struct")
 	run.Assume("the layer texts contain parts of the embed marker but a chain whose text (without the embedding) contains the complete marker \\x1bjson - possible only where two corpus texts meet - is outside EmbedObject's contract and is not generated (counted in chains_excluded_marker_formed)")
 	run.Assume("'classes that have a gRPC code' are the ten keys of errorsToCode; ErrClosed and ErrCommunication take part as asked classes only")
 	run.Assume("idempotence of GRPCWrap is judged on code, status message and Error() text, not on pointer identity; the object is compared after JSON decoding into its own type")
+	run.Assume("the second error of the non-linear shapes is errors.New(\"side failure\"), which is in no class; a real OS error is used only if, before wrapping, errors.Is says it is of its class and of no other class (otherwise listed in os_errors_not_used)")
+
+	dir, derr := os.MkdirTemp("", "verif-c19-")
+	if derr != nil {
+		run.Inconclusive("no temp dir: " + derr.Error())
+		return
+	}
+	defer os.RemoveAll(dir)
+	allOS := osRoots(dir)
 
 	if p := os.Getenv("VERIF_REPLAY"); p != "" {
-		replay(run, p)
+		replay(run, p, allOS)
 		return
 	}
 
 	if run.Thorough() {
 		corpus = append(corpus, corpusThorough...)
 	}
-	// harness self-checks: corpus texts distinct and marker-free, objects survive plain JSON
+	alphabet = append(append([]layer(nil), corpus...), shapes...)
+	// harness self-checks: layers distinct, marker-free and formatted as declared; objects survive plain JSON
 	seen := map[string]bool{}
-	for _, l := range corpus {
-		key := l.Pre + "\x00" + l.Suf
+	for _, l := range alphabet {
+		key := l.Shape + "\x00" + l.Pre + "\x00" + l.Suf
 		if seen[key] || strings.Contains(l.Pre, marker) || strings.Contains(l.Suf, marker) {
-			run.Inconclusive("corpus entry " + l.Name + " is a duplicate or contains the complete marker")
+			run.Inconclusive("layer " + l.Name + " is a duplicate or contains the complete marker")
 			return
 		}
 		seen[key] = true
+		if got := l.wrap(errors.New("X")).Error(); got != l.Pre+"X"+l.Suf {
+			run.Inconclusive(fmt.Sprintf("layer %s formats as %q, declared %q", l.Name, got, l.Pre+"X"+l.Suf))
+			return
+		}
 	}
+	for _, c := range classes {
+		if errors.Is(sideErr, c.err) {
+			run.Inconclusive("the side error is of class " + c.name)
+			return
+		}
+	}
+	names := map[string]bool{}
 	for _, o := range objects {
 		b, err := json.Marshal(o.val)
 		ptr := o.out()
-		if err != nil || json.Unmarshal(b, ptr) != nil || !reflect.DeepEqual(o.get(ptr), o.val) || strings.Contains(string(b), marker) {
+		if err != nil || json.Unmarshal(b, ptr) != nil || !reflect.DeepEqual(o.get(ptr), o.val) || strings.Contains(string(b), marker) || names[o.name] {
 			run.Inconclusive("object " + o.name + " does not survive encoding/json")
 			return
+		}
+		if !o.deep && !strings.Contains(string(b), "%") {
+			run.Inconclusive("object " + o.name + " was meant to contain a per cent sign")
+			return
+		}
+		names[o.name] = true
+	}
+
+	// the families of chains
+	var walks []*walk
+	var deep, shallow []*object
+	for i := range objects {
+		if objects[i].deep {
+			deep = append(deep, &objects[i])
+		} else {
+			shallow = append(shallow, &objects[i])
+		}
+	}
+	all := append(append([]*object(nil), deep...), shallow...)
+	coded := 0
+	for ci, c := range classes {
+		if !c.coded {
+			continue
+		}
+		coded++
+		rt := root{"", ci, c.err}
+		walks = append(walks, &walk{rt: rt, outer: all, maxDepth: maxDepth, mixedDepth: 3})
+		for _, o := range deep {
+			walks = append(walks, &walk{rt: rt, base: o, maxDepth: maxDepth, mixedDepth: 3})
+		}
+		for _, o := range shallow {
+			walks = append(walks, &walk{rt: rt, base: o, maxDepth: shallowDepth, mixedDepth: shallowDepth})
+		}
+	}
+	var osUsed, osNotUsed []string
+	uncoded := map[string]any{}
+	osObjects := []*object{objectByName("hostile-struct"), objectByName("pct-struct")}
+	for _, rt := range allOS {
+		desc := fmt.Sprintf("%s: %T %q", rt.label(), rt.err, rt.err.Error())
+		switch {
+		case !rt.qualifies():
+			osNotUsed = append(osNotUsed, desc)
+		case !classes[rt.ci].coded:
+			// a class without a code: its survival is not part of the statement, record what happens
+			var g error
+			if f := guarded("GRPCWrap", func() { g = gerrors.GRPCWrap(rt.err) }); f == nil && g != nil {
+				var is []string
+				for _, c := range classes {
+					if gerrors.Is(g, c.err) {
+						is = append(is, c.name)
+					}
+				}
+				uncoded[desc] = map[string]any{"wrapped_code": status.Code(g).String(), "wrapped_is": is}
+			}
+		default:
+			osUsed = append(osUsed, desc)
+			// the outer objects of an OS root are used up to shallowDepth only: mark by a shallow copy
+			var outer []*object
+			for _, o := range osObjects {
+				c := *o
+				c.deep = false
+				outer = append(outer, &c)
+			}
+			walks = append(walks, &walk{rt: rt, outer: outer, maxDepth: 3, mixedDepth: 3})
+			for _, o := range osObjects {
+				walks = append(walks, &walk{rt: rt, base: o, maxDepth: shallowDepth, mixedDepth: shallowDepth})
+			}
 		}
 	}
 
 	type unit struct {
-		ci    int
-		base  *object // inner embedding or nil
-		first int     // index of the first layer, -1: the depth-0 chain only
+		w     *walk
+		first int // index into alphabet of the first layer, -1: the depth-0 chain only
 	}
 	units := make(chan unit, 64)
 	var total counters
@@ -540,33 +765,34 @@ func TestCheck(t *testing.T) {
 	var mu sync.Mutex
 	var wg sync.WaitGroup
 	var sampled atomic.Int32
-	for w := 0; w < runtime.NumCPU(); w++ {
+	for n := 0; n < runtime.NumCPU(); n++ {
 		wg.Add(1)
 		go func() {
 			defer wg.Done()
 			cnt := counters{seen: map[string]int{}}
 			for u := range units {
-				c := classes[u.ci]
-				err := c.err
-				if u.base != nil {
-					var f *finding
-					if f = guarded("EmbedObject", func() { err = gerrors.EmbedObject(u.base.val, c.err) }); f != nil {
-						run.Violation(f.sig, f.what, kase{Class: c.name, Embed: embInner, Object: u.base.name})
+				w := u.w
+				err := w.rt.err
+				plain := err.Error()
+				if w.base != nil {
+					if f := guarded("EmbedObject", func() { err = gerrors.EmbedObject(w.base.val, w.rt.err) }); f != nil {
+						run.Violation(f.sig, f.what, kase{Class: classes[w.rt.ci].name, Root: w.rt.name, Embed: embInner, Object: w.base.name})
 						continue
 					}
 				}
 				before := cnt.tuples
 				if u.first < 0 {
-					// only the root: explore with the depth bound reached immediately
-					exploreRoot(run, u.ci, u.base, err, &cnt)
+					only := *w // the depth-0 chain alone
+					only.maxDepth, only.mixedDepth = 0, 0
+					only.explore(run, err, plain, nil, true, &cnt)
 				} else {
-					l := corpus[u.first]
-					explore(run, u.ci, u.base, l.wrap(err), l.Pre+c.err.Error()+l.Suf, []layer{l}, &cnt)
+					l := alphabet[u.first]
+					w.explore(run, l.wrap(err), l.Pre+plain+l.Suf, []layer{l}, l.Shape == "", &cnt)
 				}
 				run.Eval(int(cnt.tuples - before))
-				if corpus[max(u.first, 0)].Name == "esc-jso" && u.base != nil && sampled.Add(1) <= 2 {
-					k := kase{Class: c.name, Layers: []layer{corpus[u.first], corpus[2]}, Embed: embInner, Object: u.base.name}
-					if e, f := buildChain(k); f == nil {
+				if u.first >= 0 && w.base != nil && w.rt.name == "" && (alphabet[u.first].Name == "esc-jso" || alphabet[u.first].Shape == shapeJoinLeft) && sampled.Add(1) <= 3 {
+					k := kase{Class: classes[w.rt.ci].name, Layers: []layer{alphabet[u.first], corpus[2]}, Embed: embInner, Object: w.base.name}
+					if e, f := buildChain(k, nil); f == nil {
 						run.Sample(map[string]any{"case": k, "chain_text": e.Error(), "wrapped_text": gerrors.GRPCWrap(e).Error()})
 					}
 				}
@@ -577,31 +803,15 @@ func TestCheck(t *testing.T) {
 					repeats += int64(n - 1)
 				}
 			}
-			total.chains += cnt.chains
-			total.tuples += cnt.tuples
-			total.pruned += cnt.pruned
-			total.embInner += cnt.embInner
-			total.embOuter += cnt.embOuter
-			total.embNone += cnt.embNone
-			for i := range cnt.byDepth {
-				total.byDepth[i] += cnt.byDepth[i]
-			}
+			total.add(&cnt)
 			mu.Unlock()
 		}()
 	}
-	coded := 0
-	for ci, c := range classes {
-		if !c.coded {
-			continue
-		}
-		coded++
-		bases := []*object{nil}
-		for i := range objects {
-			bases = append(bases, &objects[i])
-		}
-		for _, b := range bases {
-			for first := -1; first < len(corpus); first++ {
-				units <- unit{ci, b, first}
+	for _, w := range walks {
+		units <- unit{w, -1}
+		for first, l := range alphabet {
+			if w.allowed(0, true, l) {
+				units <- unit{w, first}
 			}
 		}
 	}
@@ -641,49 +851,40 @@ func TestCheck(t *testing.T) {
 	run.Add("chains_without_object", total.embNone)
 	run.Add("chains_object_innermost", total.embInner)
 	run.Add("chains_object_outermost", total.embOuter)
+	run.Add("chains_with_a_non_linear_layer", total.shapeChains)
+	run.Add("chains_around_a_real_os_error", total.osChains)
+	run.Add("chains_with_a_percent_object", total.pctChains)
 	run.Add("chains_excluded_marker_formed", total.pruned)
 	run.Add("class_pairs_asked", total.tuples)
 	run.Add("code_message_pairs", int64(codePairs))
 	run.Add("repeated_findings_not_reported_again", repeats)
 	run.Note("chains_by_depth", total.byDepth)
-	run.Note("space", map[string]any{
-		"coded_classes": coded, "asked_classes": len(classes), "depths": "0..4", "layer_texts": len(corpus),
-		"objects": len(objects), "grpc_codes": 17, "messages_per_code": len(msgs),
-	})
-	var names []string
-	for _, l := range corpus {
-		names = append(names, l.Name)
+	var objNames, layerNames []string
+	for _, o := range objects {
+		objNames = append(objNames, o.name)
 	}
-	run.Note("layer_corpus", names)
+	for _, l := range alphabet {
+		layerNames = append(layerNames, l.Name)
+	}
+	run.Note("space", map[string]any{
+		"coded_classes": coded, "asked_classes": len(classes), "layer_texts": len(corpus), "layer_shapes": len(shapes),
+		"depth_any_layer": 3, "depth_text_layers_only": maxDepth, "depth_percent_objects_and_os_objects": shallowDepth,
+		"objects": objNames, "grpc_codes": 17, "messages_per_code": len(msgs),
+	})
+	run.Note("layers", layerNames)
+	run.Note("os_errors_used", osUsed)
+	run.Note("os_errors_not_used", osNotUsed)
+	run.Note("os_errors_of_a_class_without_code_not_judged", uncoded)
 	run.Sample(fmt.Sprintf("code direction: status.Error(Aborted, %q) -> %v", msgs[3], gerrors.FromGRPCError(status.Error(codes.Aborted, msgs[3]))))
-	if total.embInner == 0 || total.embOuter == 0 || total.byDepth[maxDepth] == 0 {
+	if total.embInner == 0 || total.embOuter == 0 || total.byDepth[maxDepth] == 0 || total.shapeChains == 0 || total.pctChains == 0 {
 		run.Inconclusive("a part of the space was not visited")
 	}
-}
-
-// exploreRoot evaluates the depth-0 chain of a unit only.
-func exploreRoot(run *report.Run, ci int, base *object, err error, cnt *counters) {
-	c := classes[ci]
-	cnt.chains++
-	cnt.tuples += int64(len(classes))
-	cnt.byDepth[0]++
-	emb := embNone
-	if base != nil {
-		emb = embInner
-		cnt.embInner++
-	} else {
-		cnt.embNone++
-	}
-	for _, f := range checkChain(ci, err, emb, base, cnt.seen) {
-		k := kase{Class: c.name, Embed: emb}
-		if base != nil {
-			k.Object = base.name
-		}
-		run.Violation(f.sig, f.what, k)
+	if len(osUsed) < 4 || total.osChains == 0 {
+		run.Inconclusive(fmt.Sprintf("too few real OS errors could be produced (%d)", len(osUsed)))
 	}
 }
 
-func replay(run *report.Run, path string) {
+func replay(run *report.Run, path string, roots []root) {
 	b, err := os.ReadFile(path)
 	if err != nil {
 		run.Inconclusive("cannot read replay file: " + err.Error())
@@ -710,11 +911,11 @@ func replay(run *report.Run, path string) {
 			run.Inconclusive("unknown class in the replay file: " + k.Class)
 			return
 		}
-		e, f := buildChain(k)
+		e, f := buildChain(k, roots)
 		if f != nil {
 			fs = append(fs, *f)
 		} else {
-			fs = checkChain(ci, e, k.Embed, objectByName(k.Object), nil)
+			fs, _ = checkChain(ci, e, k.Embed, objectByName(k.Object), nil)
 		}
 		if classes[ci].coded {
 			fs = append(fs, checkRoundTrip(ci)...)
